@@ -331,8 +331,19 @@ func resp3To2(val3 respValue) (value respValue) {
 	switch v := val3.data.(type) {
 	case respSimpleString, respErrorString, respInt, respBulkString:
 		value.data = v
-	case respDouble, respBool, respBigNumber, respVerbatimString:
-		value.data = respSimpleString(fmt.Sprintf("%s", v))
+	case respDouble:
+		value.data = respBulkString(v.String())
+	case respBigNumber:
+		value.data = respBulkString(v.String())
+	case respBool:
+		if v {
+			value.data = respInt(1)
+		} else {
+			value.data = respInt(0)
+		}
+	case respVerbatimString:
+		// the text without its format prefix, as a bulk string (it may contain line breaks)
+		value.data = respBulkString(v.text)
 	case respBlobError:
 		value.data = respErrorString(v.String())
 	case respMap:
